@@ -3,6 +3,7 @@ package props
 import (
 	"crypto/ecdsa"
 	"crypto/ed25519"
+	"crypto/rsa"
 	"crypto/sha256"
 	"encoding/hex"
 	"encoding/json"
@@ -14,6 +15,7 @@ import (
 	"sync"
 	"testing"
 
+	"github.com/fxamacker/cbor/v2"
 	cose "github.com/veraison/go-cose"
 	"pgregory.net/rapid"
 
@@ -58,6 +60,16 @@ func c18Build(c *c18Case) (shared []any, ops []c18Op, err error) {
 		m = constructLib(&plain)
 		if err := m.sign(spec.Ext(), ss...); err != nil {
 			return nil, nil, errSkip
+		}
+		if len(spec.Payload)%3 == 0 {
+			// raw header fields that are empty but not nil (a caller that truncates them instead of assigning nil)
+			m.headers().RawProtected, m.headers().RawUnprotected = cbor.RawMessage{}, make(cbor.RawMessage, 0, 4)
+			if m.sm != nil {
+				for _, sg := range m.sm.Signatures {
+					sg.Headers.RawProtected, sg.Headers.RawUnprotected = make(cbor.RawMessage, 0, 4), cbor.RawMessage{}
+				}
+			}
+			stats.Class("constructed-message-with-empty-non-nil-raw-fields")
 		}
 	} else {
 		m, err = decodeLib(spec.Kind, c.W.Wire)
@@ -297,6 +309,27 @@ func c18Build(c *c18Case) (shared []any, ops []c18Op, err error) {
 			}
 			return errStr(msg.Verify(nil, sv))
 		}})
+	}
+	// ... and with an RSA key the application assembled from its numbers (N, E, D, P, Q; nothing precomputed):
+	// the key belongs to the caller, signing only reads it
+	if rk, ok := sk.Private().(*rsa.PrivateKey); ok {
+		cp := func(x *big.Int) *big.Int { return new(big.Int).Set(x) }
+		hand := &rsa.PrivateKey{PublicKey: rsa.PublicKey{N: cp(rk.N), E: rk.E}, D: cp(rk.D), Primes: []*big.Int{cp(rk.Primes[0]), cp(rk.Primes[1])}}
+		if hsg, err := cose.NewSigner(cose.Algorithm(sk.Alg), hand); err == nil {
+			shared = append(shared, hsg, hand)
+			stats.Class("shared-signer-over-hand-built-rsa-key")
+			ops = append(ops, c18Op{"Sign/shared-signer-over-hand-built-rsa-key", func() string {
+				ctr.Lock()
+				ctr.n++
+				id := ctr.n
+				ctr.Unlock()
+				msg := &cose.Sign1Message{Headers: cose.Headers{Protected: cose.ProtectedHeader{int64(1): cose.Algorithm(sk.Alg)}}, Payload: []byte(fmt.Sprintf("distinct message %d", id))}
+				if e := msg.Sign(refcose.NewEntropy([]byte{byte(id)}), nil, hsg); e != nil {
+					return errStr(e)
+				}
+				return errStr(msg.Verify(nil, sv))
+			}})
+		}
 	}
 	return shared, ops, nil
 }
